@@ -97,12 +97,13 @@ func (ul *Upstreams) open(manager cert.TlsConfig) (err error) {
 	return errors.Errorf("Could not connect to any upstream endpoints!")
 }
 
-// openStream will select a specific subprotocol stream within our session
-func (ul *Upstreams) openStream(subProtocol string) (streams.ReadWriteCloserClosed, error) {
+// openStream will select a specific subprotocol stream within our session. sessionLost is set when the stream
+// could not even be opened, i.e. the physical session is gone (as opposed to the server refusing the channel).
+func (ul *Upstreams) openStream(subProtocol string) (result streams.ReadWriteCloserClosed, sessionLost bool, err error) {
 	conn, err := ul.session.OpenStream()
 
 	if err != nil {
-		return nil, err
+		return nil, true, err
 	}
 
 	stream := streams.NewNamedStream(conn, ul.session.RemoteAddr().String())
@@ -111,10 +112,10 @@ func (ul *Upstreams) openStream(subProtocol string) (streams.ReadWriteCloserClos
 		if e := streams.LogClose(stream); e != nil {
 			log.WithError(e).Errorf("Failed closing the connection: %+v", e)
 		}
-		return nil, errors.Wrapf(err, "Could no select protocol %s", subProtocol)
+		return nil, false, errors.Wrapf(err, "Could no select protocol %s", subProtocol)
 	}
 
-	return streams.NewNamedStream(stream, subProtocol), err
+	return streams.NewNamedStream(stream, subProtocol), false, err
 }
 
 // Connect will return a mutex stream to the first upstream available. If an upstream connection is already opened,
@@ -124,18 +125,45 @@ func (ul *Upstreams) Connect(config cert.ConfigGetter, subProtocol string) (stre
 	var err error
 
 	ul.mutex.Lock()
+	reused := true
 	if ul.connection == nil || ul.connection.Closed() {
+		reused = false
 		ul.connection = nil
 		ul.session = nil
 		err = ul.open(config.CertManager())
 	}
+	session := ul.session
 	ul.mutex.Unlock()
 
 	if err != nil {
 		return nil, err
 	}
 
-	return ul.openStream(subProtocol)
+	stream, sessionLost, err := ul.openStream(subProtocol)
+	if err != nil && sessionLost && reused {
+		// The session we wanted to reuse is dead (carrier cut, server restarted). Replace it, once.
+		ul.mutex.Lock()
+		if ul.session == session {
+			if ul.session != nil {
+				streams.TryClose(ul.session)
+			}
+			if ul.connection != nil {
+				streams.TryClose(ul.connection)
+			}
+			ul.connection = nil
+			ul.session = nil
+			err = ul.open(config.CertManager())
+		} else {
+			err = nil // somebody else has already replaced it
+		}
+		ul.mutex.Unlock()
+		if err != nil {
+			return nil, err
+		}
+		stream, _, err = ul.openStream(subProtocol)
+	}
+
+	return stream, err
 }
 
 // Shutdown will close the connection to the connected upstream server
